@@ -225,6 +225,12 @@ def transport_cases(framing):
     h0 = dict(rtu=5, tcp=9, aa55=9)[framing]
     for k in sorted({h0, h0 + 1, max(h0, len(f) // 2 + 1), len(f) - 1}):
         yield f'valid-in-two-pieces@{k}', (f[:k], f[k:])
+        # ... and a frame that is NOT well-formed once its two pieces are put together (remainder of the announced
+        # length, but corrupted / with a broken checksum / garbage)
+        rem = f[k:]
+        yield f'corrupt-remainder@{k}', (f[:k], bytes([rem[0] ^ 0x01]) + rem[1:])
+        yield f'bad-checksum-remainder@{k}', (f[:k], rem[:-1] + bytes([rem[-1] ^ 0x80]))
+        yield f'garbage-remainder@{k}', (f[:k], bytes((37 * i + 11) & 0xFF for i in range(len(rem))))
     if framing != 'aa55':
         b = 4 if framing == 'rtu' else 8
         yield 'wrong-count', f[:b] + bytes([f[b] + 2]) + f[b + 1:] + b'\0\0'
